@@ -6,3 +6,4 @@ open BeffVerif.C14
 #print axioms history_independent
 #print axioms stale_module_breaks_history_independence
 #print axioms BeffVerif.C14.flush_only_when_new_file_parses_breaks_history_independence
+#print axioms BeffVerif.C14.rebuild_twice
